@@ -30,7 +30,7 @@ func (c *CRLRevocationChecker) IsRevoked(clientCertificate *x509.Certificate, ve
 	var locations *core.CRLLocations
 
 	if len(clientCertificate.CRLDistributionPoints) > 0 {
-		chains := core.NewCertificateChains(verifiedChains, c.crlConfig.TrustedSignatureCerts)
+		chains := core.NewCertificateChains(issuerChains(verifiedChains), c.crlConfig.TrustedSignatureCerts)
 		locations = &core.CRLLocations{CRLDistributionPoints: clientCertificate.CRLDistributionPoints}
 		added, err := c.crlRepository.AddCRL(locations, chains)
 		if err != nil {
@@ -45,6 +45,18 @@ func (c *CRLRevocationChecker) IsRevoked(clientCertificate *x509.Certificate, ve
 
 	revoked, err := c.crlRepository.IsRevoked(clientCertificate, locations)
 	return revoked, err
+}
+
+// issuerChains returns the verified chains without their end-entity certificates: only certificates above
+// the client certificate (or configured trusted signers) are entitled to sign the CRL of its issuer
+func issuerChains(verifiedChains [][]*x509.Certificate) [][]*x509.Certificate {
+	result := make([][]*x509.Certificate, 0, len(verifiedChains))
+	for _, verifiedChain := range verifiedChains {
+		if len(verifiedChain) > 1 {
+			result = append(result, verifiedChain[1:])
+		}
+	}
+	return result
 }
 
 func (c *CRLRevocationChecker) Provision(crlConfig *config.CRLConfig, logger *zap.Logger) error {
